@@ -148,3 +148,28 @@ Proof.
     rewrite (super_value_pos _ _ Hd). change (sup_digit d :: map sup_digit ds) with (map sup_digit (d :: ds)).
     rewrite (sup_value_digits _ Hr 0), Hv. f_equal. apply Z.abs_eq, Hpos.
 Qed.
+
+(* ---- the quantity document round-trips exactly when its unit's text does (C15 rests on C13 here, and on nothing else) ---- *)
+Theorem quantity_document_roundtrip nm tab pt order ignore rules infos filtered terminals end_sym T k v u of l :
+  print_terms pt u of = PTerms l ->
+  render_parses_back nm order ignore rules infos filtered terminals end_sym T l = true ->
+  eval_unit tab l None = POk u ->
+  match enc_quantity pt k v u of with
+  | Some d => dec_quantity nm tab order ignore rules infos filtered terminals end_sym T d = Some (k, v, u)
+  | None => False
+  end.
+Proof.
+  intros Hp Hr He. unfold enc_quantity. rewrite Hp. unfold dec_quantity. cbn [qd_unit qd_kind qd_value].
+  rewrite (text_roundtrip_is_term_roundtrip nm tab order ignore rules infos filtered terminals end_sym T l Hr), He. reflexivity.
+Qed.
+
+(* ... and when the text reads back as ANOTHER unit (the recorded collisions) or not at all, the document does not round-trip: the magnitude
+   and its type are never the reason *)
+Theorem quantity_document_fails_only_through_unit_text nm tab pt order ignore rules infos filtered terminals end_sym T k v u of d :
+  enc_quantity pt k v u of = Some d ->
+  dec_quantity nm tab order ignore rules infos filtered terminals end_sym T d <> Some (k, v, u) ->
+  unit_parse_text nm tab order ignore rules infos filtered terminals end_sym T (qd_unit d) <> TUnit (POk u).
+Proof.
+  intros He Hd Hu. apply Hd. unfold dec_quantity. rewrite Hu. unfold enc_quantity in He.
+  destruct (print_terms pt u of); try discriminate. injection He as <-. reflexivity.
+Qed.
